@@ -1,7 +1,7 @@
 (* C06 — Encoding is well-formed, collision-free and deterministic. *)
-From Coq Require Import List String Bool ZArith Permutation Sorted.
+From Coq Require Import List String Ascii Bool ZArith Permutation Sorted.
 Local Open Scope Z_scope.
-From Spec Require Import Base.Json Codec.Types Codec.Gen_Tables Codec.Codec Codec.CodecFacts Codec.PayloadFacts.
+From Spec Require Import Base.Json Base.JsonText Base.JsonTree Base.JsonRoundTrip Codec.Types Codec.Gen_Tables Codec.Codec Codec.CodecFacts Codec.PayloadFacts.
 Import ListNotations.
 Local Open Scope string_scope.
 
@@ -57,3 +57,25 @@ Print Assumptions C06_emitted_payloads_have_no_duplicate_names.
 Theorem C06_maps_are_emitted_sorted : forall l, StronglySorted mlt (sort_members l).
 Proof. exact sort_members_is_sorted. Qed.
 Print Assumptions C06_maps_are_emitted_sorted.
+
+(* The text level.  The model's encodings are JSON trees; they leave the model as text through [print_json] and documents enter it
+   through [parse_json] (Base/Json.v: the reader and the writer of the extracted model).  Whatever the tree - any member names, any
+   strings: quotes, backslashes, control characters, bytes above 127 - the text written for it is read back as that very tree, the
+   numbers in the one form the writer uses for them: every member name and every string is escaped in a way the reader undoes, no
+   member is lost, merged or reordered, and the text is a complete JSON value (nothing is left over).  Unbounded: no limit on depth,
+   width or length. *)
+Theorem C06_emitted_text_reads_back_as_the_value : forall j, parse_json (print_json j) = Some (canon j).
+Proof. exact parse_print. Qed.
+Print Assumptions C06_emitted_text_reads_back_as_the_value.
+Theorem C06_emitted_text_reads_back_exactly : forall j, nums_normal j -> parse_json (print_json j) = Some j.
+Proof. exact parse_print_exact. Qed.
+Print Assumptions C06_emitted_text_reads_back_exactly.
+(* the same for one string, with anything after it: the closing quote found by the reader is the one the writer wrote *)
+Theorem C06_every_string_is_escaped_reversibly : forall s rest,
+  p_str (S (List.length (esc_chars (s2l s) ++ """"%char :: rest)%list)) (esc_chars (s2l s) ++ """"%char :: rest)%list [] = Some (s, rest).
+Proof. exact quoted_string_reads_back. Qed.
+Print Assumptions C06_every_string_is_escaped_reversibly.
+Example C06_text_example :
+  let j := JObj [("a\""b", JArr [JNum 100 0; JNum (-15) (-1); JStr "x\y"; JNull]); ("", JObj []); ("k", JBool true)] in
+  parse_json (print_json j) = Some (canon j) /\ print_json j = "{""a\\\""b"":[1e2,-15e-1,""x\\y"",null],"""":{},""k"":true}".
+Proof. exact parse_print_example. Qed.
